@@ -215,7 +215,11 @@ func checkPoly(t TB, c PolyCase) {
 	var again *[2][]int
 	if pv := try(func() {
 		aSlice, bSlice = cp(c.A), cp(c.B)
-		pa, pb := utils.NewGFPoly(gf, aSlice), utils.NewGFPoly(gf, bSlice)
+		gfB := gf
+		if (c.Deg+c.Coef)%3 == 0 { // the operands live on two separately constructed instances of the same field
+			gfB = utils.NewGaloisField(sp.PP, sp.Size, 1)
+		}
+		pa, pb := utils.NewGFPoly(gf, aSlice), utils.NewGFPoly(gfB, bSlice)
 		defer func() { aAfter, bAfter = cp(pa.Coefficients), cp(pb.Coefficients) }()
 		ps := pa.AddOrSubstract(pb)
 		sum = cp(ps.Coefficients)
@@ -540,6 +544,13 @@ func genRSCase(t *rapid.T) RSCase {
 			n = rapid.IntRange(1, min(maxN, 70)).Draw(t, "nsmall")
 		default:
 			n = rapid.IntRange(1, maxN).Draw(t, "n")
+		}
+		if size >= 1024 && rapid.IntRange(0, 15).Draw(t, "hugen") == 0 {
+			// more check symbols than any symbology asks for (generator tables capped or kept only partly)
+			n = rapid.SampledFrom([]int{601, 1023, 1024, 1025, 1100, 2047, 2048, 4095}).Draw(t, "nhuge")
+			if n > size-1 {
+				n = size - 1
+			}
 		}
 		if n < 1 {
 			n = 1
